@@ -870,6 +870,9 @@ func (m *Machine) runPath(entry *ssa.Function) (end pathEnd) {
 		default:
 			end = pathEnd{kind: "engine", msg: fmt.Sprint(r)}
 		}
+		if end.kind == "unsupported" || end.kind == "engine" || end.kind == "steps" || end.kind == "unwind" {
+			end.msg = firstLine(end.msg) + " [at " + m.whereAmI() + "]"
+		}
 		m.endModel = nil
 		if end.kind == "panic" {
 			if res, model := m.query(nil, true); res == Sat {
